@@ -692,3 +692,272 @@ theorem accepts (k : Cfg) (hk : k.contain = .sepTerminated) (cwd : Str) (fs : Ra
     · exact mem_comps p' c h
 
 end C18
+
+/-! ## relative paths in normal form; `relpath` against a prefix folder (used by C19 chain walks) -/
+
+namespace Path
+
+/-- A relative path string in normal form: clean names joined by single slashes (`""` allowed). -/
+def NormRel (p : Str) : Prop :=
+  p = joinWith '/' (comps p) ∧ ∀ c ∈ comps p, c ≠ dot ∧ c ≠ dotdot ∧ '\\' ∉ c
+
+theorem joinWith_cons_eq (d : Char) (x : Str) (r : List Str) :
+    joinWith d (x :: r) = x ++ r.flatMap (fun y => d :: y) := by
+  induction r generalizing x with
+  | nil => simp [joinWith]
+  | cons y r ih => rw [joinWith_cons_cons, ih]; simp
+
+theorem endsWithSep_append_clean (a b : Str) (hb : b ≠ []) (hs : '/' ∉ b) :
+    endsWithSep (a ++ b) = false := by
+  unfold endsWithSep
+  rw [List.getLast?_append]
+  cases h : b.getLast? with
+  | none =>
+    exfalso
+    exact hb (List.getLast?_eq_none_iff.mp h)
+  | some x =>
+    have hx : x ∈ b := List.mem_of_getLast? h
+    have : x ≠ '/' := fun e => hs (e ▸ hx)
+    simp [this]
+
+theorem isAbs_clean (b : Str) (hs : '/' ∉ b) : isAbs b = false := by
+  cases b with
+  | nil => rfl
+  | cons c cs =>
+    have : c ≠ '/' := fun e => hs (e ▸ List.mem_cons_self)
+    simp [isAbs, this]
+
+theorem foldl_join2_clean (bs : List Str) (hbs : ∀ b ∈ bs, b ≠ [] ∧ '/' ∉ b) (acc : Str)
+    (ha : acc ≠ []) (he : endsWithSep acc = false) :
+    bs.foldl join2 acc = acc ++ bs.flatMap (fun y => '/' :: y) := by
+  induction bs generalizing acc with
+  | nil => simp
+  | cons b r ih =>
+    have hb := hbs b List.mem_cons_self
+    have hj : join2 acc b = acc ++ '/' :: b := by
+      unfold join2
+      simp [isAbs_clean b hb.2, ha, he]
+    simp only [List.foldl_cons, hj]
+    rw [ih (fun x hx => hbs x (List.mem_cons_of_mem _ hx)) _ (by simp)
+      (by
+        have : acc ++ '/' :: b = (acc ++ ['/']) ++ b := by simp
+        rw [this]; exact endsWithSep_append_clean _ b hb.1 hb.2)]
+    simp
+
+theorem joinMany_clean (r : Str) (rs : List Str) (h : ∀ b ∈ r :: rs, b ≠ [] ∧ '/' ∉ b) :
+    joinMany r rs = joinWith '/' (r :: rs) := by
+  have hr := h r List.mem_cons_self
+  unfold joinMany
+  rw [foldl_join2_clean rs (fun b hb => h b (List.mem_cons_of_mem _ hb)) r hr.1
+    (by simpa using endsWithSep_append_clean [] r hr.1 hr.2), joinWith_cons_eq]
+
+theorem commonLen_append (a b : List Str) : commonLen a (a ++ b) = a.length := by
+  induction a with
+  | nil => cases b <;> simp [commonLen]
+  | cons x r ih => simp [commonLen, ih]
+
+theorem normRel_isAbs (p : Str) (h : NormRel p) : isAbs p = false := by
+  cases hc : comps p with
+  | nil => rw [h.1, hc]; rfl
+  | cons x r =>
+    have hx := mem_comps p x (by rw [hc]; exact List.mem_cons_self)
+    rw [h.1, hc]
+    unfold isAbs
+    rw [joinWith_head r x hx.1]
+    cases x with
+    | nil => exact absurd rfl hx.1
+    | cons a b =>
+      have : a ≠ '/' := fun e => hx.2 (e ▸ List.mem_cons_self)
+      simp [this]
+
+end Path
+
+namespace C18
+open Path
+
+/-- `abspath` of a normal relative path under a normal current directory: components append. -/
+theorem comps_abspath_rel (cwd p : Str) (hcwd : NormalAbs cwd) (hp : NormRel p) :
+    comps (abspath cwd p) = comps cwd ++ comps p := by
+  have hrel := normRel_isAbs p hp
+  obtain ⟨q, hq, hc⟩ := accepts ⟨.sepTerminated, false, false⟩ rfl cwd ⟨cwd, false⟩ hcwd p
+    (by simpa using hrel) (by intro c hc; simp only [Bool.false_eq_true, if_false] at hc; exact ⟨(hp.2 c hc).1, (hp.2 c hc).2.1⟩)
+  simp only [Bool.false_eq_true, if_false] at hc
+  obtain ⟨hq', _⟩ := resolve_ok hq
+  simp only [Bool.false_eq_true, if_false] at hq'
+  have habs : isAbs cwd = true := by
+    obtain ⟨n, cs, hn, _, hr⟩ := hcwd
+    rw [hr]; rcases hn with rfl | rfl <;> simp [isAbs, List.replicate]
+  have hJ : isAbs (join2 cwd p) = true := isAbs_join2 _ _ habs
+  have : abspath cwd p = q := by
+    rw [hq']
+    simp [abspath, hrel, hJ]
+  rw [this, hc]
+
+end C18
+
+namespace C18
+open Path
+
+/-- the part of `n` after the prefix folder `p` and its slash (`n` itself for the empty prefix). -/
+def stripPfx (p n : Str) : Str := if p = [] then n else n.drop (p.length + 1)
+
+theorem relpath_of_comps (cwd p n : Str) (hcwd : NormalAbs cwd) (hp : NormRel p) (hn : NormRel n)
+    (hne : n ≠ []) (r : Str) (rs : List Str) (hc : comps n = comps p ++ r :: rs) :
+    relpath cwd n p = some (joinWith '/' (r :: rs)) := by
+  unfold relpath
+  simp only [hne, if_false]
+  rw [comps_abspath_rel cwd p hcwd hp, comps_abspath_rel cwd n hcwd hn, hc, ← List.append_assoc,
+    commonLen_append]
+  simp only [Nat.sub_self, List.replicate_zero, List.nil_append, List.drop_left]
+  have hcl : ∀ b ∈ r :: rs, b ≠ [] ∧ '/' ∉ b := by
+    intro b hb
+    exact mem_comps n b (by rw [hc]; exact List.mem_append_right _ hb)
+  rw [joinMany_clean r rs hcl]
+
+theorem relpath_strip (cwd p n : Str) (hcwd : NormalAbs cwd) (hp : NormRel p) (hn : NormRel n)
+    (hne : n ≠ []) (hpre : p ≠ [] → (p ++ ['/']) <+: n) :
+    relpath cwd n p = some (stripPfx p n) ∧ isAbs (stripPfx p n) = false ∧
+      join2 p (stripPfx p n) = n := by
+  by_cases hpe : p = []
+  · subst hpe
+    have hnc : comps n ≠ [] := by
+      intro e; apply hne; rw [hn.1, e]; rfl
+    cases hc : comps n with
+    | nil => exact absurd hc hnc
+    | cons r rs =>
+      refine ⟨?_, ?_, ?_⟩
+      · rw [relpath_of_comps cwd [] n hcwd hp hn hne r rs (by simp [comps_nil, hc])]
+        simp only [stripPfx, if_true]
+        rw [← hc, ← hn.1]
+      · simpa [stripPfx] using normRel_isAbs n hn
+      · simp [stripPfx, join2, normRel_isAbs n hn]
+  · obtain ⟨rest, hrest⟩ := hpre hpe
+    have hn' : n = p ++ '/' :: rest := by rw [← hrest]; simp
+    have hcn : comps n = comps p ++ comps rest := by rw [hn', comps_append_sep]
+    have hpc : comps p ≠ [] := by
+      intro e; apply hpe; rw [hp.1, e]; rfl
+    have hstrip : stripPfx p n = rest := by
+      simp only [stripPfx, hpe, if_false, hn']
+      have : p ++ '/' :: rest = (p ++ ['/']) ++ rest := by simp
+      rw [this]
+      have hl : (p ++ ['/']).length = p.length + 1 := by simp
+      rw [← hl, List.drop_left]
+    cases hrc : comps rest with
+    | nil =>
+      exfalso
+      rw [hrc, List.append_nil] at hcn
+      have : n = p := by rw [hn.1, hcn, ← hp.1]
+      rw [this] at hn'
+      have := congrArg List.length hn'
+      simp at this
+    | cons r rs =>
+      rw [hrc] at hcn
+      have hjoin : n = p ++ '/' :: joinWith '/' (r :: rs) := by
+        conv => lhs; rw [hn.1, hcn, joinWith_append '/' (comps p) r rs hpc, ← hp.1]
+      have hrest' : rest = joinWith '/' (r :: rs) := by
+        have := hn'.symm.trans hjoin
+        have := List.append_cancel_left this
+        simpa using this
+      refine ⟨?_, ?_, ?_⟩
+      · rw [relpath_of_comps cwd p n hcwd hp hn hne r rs hcn, hstrip, hrest']
+      · rw [hstrip, hrest']
+        have hr := mem_comps rest r (by rw [hrc]; exact List.mem_cons_self)
+        unfold isAbs
+        rw [joinWith_head rs r hr.1]
+        cases r with
+        | nil => exact absurd rfl hr.1
+        | cons a b =>
+          have : a ≠ '/' := fun e => hr.2 (e ▸ List.mem_cons_self)
+          simp [this]
+      · rw [hstrip]
+        have habs : isAbs rest = false := by
+          rw [hrest']
+          have hr := mem_comps rest r (by rw [hrc]; exact List.mem_cons_self)
+          unfold isAbs
+          rw [joinWith_head rs r hr.1]
+          cases r with
+          | nil => exact absurd rfl hr.1
+          | cons a b =>
+            have : a ≠ '/' := fun e => hr.2 (e ▸ List.mem_cons_self)
+            simp [this]
+        -- p does not end with a separator
+        have hpend : endsWithSep p = false := by
+          have hl : comps p = (comps p).dropLast ++ [(comps p).getLast hpc] :=
+            (List.dropLast_concat_getLast hpc).symm
+          have hlast := mem_comps p _ (List.getLast_mem hpc)
+          rw [hp.1, hl]
+          by_cases hd : (comps p).dropLast = []
+          · rw [hd]; simp only [List.nil_append, joinWith]
+            simpa using endsWithSep_append_clean [] _ hlast.1 hlast.2
+          · rw [joinWith_append '/' _ _ [] hd]
+            simp only [joinWith]
+            have : joinWith '/' (comps p).dropLast ++ '/' :: (comps p).getLast hpc
+                = (joinWith '/' (comps p).dropLast ++ ['/']) ++ (comps p).getLast hpc := by simp
+            rw [this]
+            exact endsWithSep_append_clean _ _ hlast.1 hlast.2
+        unfold join2
+        simp [habs, hpe, hpend, hn']
+
+end C18
+
+namespace Path
+
+/-- the path without one trailing separator. -/
+def stripSep (x : Str) : Str := if endsWithSep x then x.dropLast else x
+
+theorem stripSep_cases (x : Str) :
+    (endsWithSep x = false ∧ stripSep x = x) ∨ (endsWithSep x = true ∧ x = stripSep x ++ ['/']) := by
+  unfold stripSep
+  cases h : endsWithSep x with
+  | false => left; simp
+  | true =>
+    right
+    refine ⟨rfl, ?_⟩
+    simp only [if_true]
+    simp only [endsWithSep, decide_eq_true_eq] at h
+    obtain ⟨r, rfl⟩ := List.getLast?_eq_some_iff.mp h
+    simp
+
+theorem cleanSplit_of_comps (p : Str) (h : ∀ c ∈ comps p, c ≠ dot ∧ c ≠ dotdot) : CleanSplit p := by
+  intro c hc
+  by_cases he : c = []
+  · exact Or.inl he
+  · right
+    exact h c (by simp only [comps, List.mem_filter, decide_eq_true_eq]; exact ⟨hc, he⟩)
+
+/-- `normpath` is the identity on a non-empty normal relative path, and strips one trailing slash. -/
+theorem normpath_normRel (x : Str) (h : NormRel x) (hne : x ≠ []) :
+    normpath x = x ∧ normpath (x ++ ['/']) = x := by
+  have hrel := normRel_isAbs x h
+  have hcne : comps x ≠ [] := by intro e; apply hne; rw [h.1, e]; rfl
+  have hclean : ∀ c ∈ comps x, c ≠ dot ∧ c ≠ dotdot := fun c hc => ⟨(h.2 c hc).1, (h.2 c hc).2.1⟩
+  constructor
+  · rw [normpath_eq, (initialSlashes_eq_zero x).mpr hrel,
+      normComps_cleanSplit x (cleanSplit_of_comps x hclean)]
+    simp [hcne, ← h.1]
+  · have hc2 : comps (x ++ ['/']) = comps x := by
+      have := comps_append_sep x []
+      simpa [comps_nil] using this
+    have hrel2 : isAbs (x ++ ['/']) = false := by
+      cases x with
+      | nil => exact absurd rfl hne
+      | cons a b => simpa [isAbs] using hrel
+    rw [normpath_eq, (initialSlashes_eq_zero _).mpr hrel2,
+      normComps_cleanSplit _ (cleanSplit_of_comps _ (by rw [hc2]; exact hclean)), hc2]
+    simp [hcne, ← h.1]
+
+theorem endsWithSep_append (a b : Str) (hb : b ≠ []) : endsWithSep (a ++ b) = endsWithSep b := by
+  unfold endsWithSep
+  rw [List.getLast?_append]
+  cases h : b.getLast? with
+  | none => exact absurd (List.getLast?_eq_none_iff.mp h) hb
+  | some c => simp
+
+theorem stripSep_append (a b : Str) (hb : b ≠ []) : stripSep (a ++ b) = a ++ stripSep b := by
+  unfold stripSep
+  rw [endsWithSep_append a b hb]
+  cases endsWithSep b with
+  | false => simp
+  | true => simp [List.dropLast_append_of_ne_nil hb]
+
+end Path
